@@ -40,7 +40,8 @@ RULE = (
 )
 ASSUMPTIONS = [
     "only Dirichlet and Neumann boundary faces (no Robin), no internal boundaries",
-    "faces with zero flux: only 'at most one entry per row' is demanded (the code treats 0 as positive)",
+    "faces with zero flux: only 'at most one entry per row' is demanded (the code treats 0 as positive); every "
+    "non-zero float, however small (1e-300), is a non-zero flux whose sign decides",
     "the magnitude (1) of the Neumann boundary matrix entries is demanded, their sign is not",
     "step: no-flow boundaries are realised by q = 0 on boundary faces; tolerance 1e-12 relative on "
     "mass and bounds (round-off of a handful of additions)",
@@ -53,7 +54,9 @@ BOUNDS = {
         "assignments (components 1,2,3; C(2,2,2): 2,3 for the first base field only). "
         "step: C(2,2), C(2,2)~, Tensor 2x2 uneven, T(2,2), T(2,2)~ (coefficients +-1, +-2), C(3,2), C(3,2)~ ({-1,0,1,2}^2), "
         "C(3,3) ({-1,0,1}^4), C(2,2,2) ({-1,0,1}^6), C(2,2)~ *1e-3, T(2,2) *1e3; 3 assignments; components 1,2,3; dt factor "
-        "0.5 and 1. Scale axis: T(1,1) with flux magnitudes x 1e-12 / 1e12. Purity: flux array per call, grid and "
+        "0.5 and 1. Flux-magnitude axis {1e-300, 1e-30, 1e-17, 1e-12, 1, 1e12, 1e30, mixed per face}: "
+        "T(1,1) and 1-d C(3) (all vectors x all assignments), C(2,1) (all vectors x 4 assignments; 1e-300, 1e-17, mixed), "
+        "C(2,2,2) single modifications; step part with q x 2^-60, 2^-1000, 2^100 (dt = CFL limit scales exactly). Purity: flux array per call, grid and "
         "boundary object digest per assignment; reuse (second discretize on the same dictionary) on every 16th vector."
     ),
     "thorough": (
@@ -65,6 +68,7 @@ BOUNDS = {
 MIN_CLASSES = 6
 CHUNK = 2
 
+MAGSCALES = (1e-300, 1e-30, 1e-17, 1e-12, 1.0, 1e12, 1e30)
 NFACES = {"C3": (4, 2), "T1,1": (5, 4), "C2,1": (7, 6), "C2,2": (12, 8), "C3,1": (10, 8), "T2,2": (16, 8),
           "C2,2,2": (36, 24)}
 
@@ -89,8 +93,14 @@ def cases(tier):
     for comps in (1, 2, 3):
         out.append({"part": "sel", "grid": c3, "vec": "lex", "z": 4, "prefix": [], "bcset": "all", "comps": comps})
         out.append({"part": "sel", "grid": t11, "vec": "lex", "z": 5, "prefix": [], "bcset": "all", "comps": comps})
-    for ms in (1e-12, 1e12):  # scale axis of the flux magnitudes (only the sign may matter)
+    # scale axis of the flux magnitudes: any non-zero float is a non-zero flux, only its sign may matter
+    for ms in (1e-300, 1e-30, 1e-17, 1e-12, 1e12, 1e30, "mixed"):
         out.append({"part": "sel", "grid": t11, "vec": "lex", "z": 5, "prefix": [], "bcset": "all", "comps": 1, "magscale": ms})
+        out.append({"part": "sel", "grid": c3, "vec": "lex", "z": 4, "prefix": [], "bcset": "all", "comps": 2, "magscale": ms})
+    for ms in (1e-300, 1e-17, "mixed"):
+        for p in _prefixes(1):
+            out.append({"part": "sel", "grid": c21, "vec": "lex", "z": 7, "prefix": p, "bcset": "four", "comps": 1, "magscale": ms})
+        out.append({"part": "sel", "grid": c222, "vec": "mod1", "base": 0, "bcset": "side", "comps": 1, "slice": [0, 1], "magscale": ms})
 
     def pref(L, z):
         return [p for p in _prefixes(L) if sum(1 for v in p if v == 0) <= z]
@@ -131,6 +141,11 @@ def cases(tier):
     for spec, coef in steps:
         for comps in (1, 2, 3):
             out.append({"part": "step", "grid": spec, "coef": coef, "comps": comps})
+    # tiny / huge flux magnitudes (powers of two, so dt = CFL limit scales in exact proportion)
+    for spec, coef, e in ((dict(c22, pert=[[4, [1, -1]]]), "pm2", -60), ({"kind": "C", "n": [3, 2]}, "m1to2", -1000),
+                          (t22, "pm2", 100), ({"kind": "C", "n": [3, 3]}, "tern", -60)):
+        for comps in (1, 2):
+            out.append({"part": "step", "grid": spec, "coef": coef, "comps": comps, "mag_exp2": e})
     return out
 
 
@@ -249,7 +264,12 @@ def _run_sel(case, out):
     is_bnd = np.zeros(nf, dtype=bool)
     is_bnd[bf] = True
     interior = ~is_bnd
-    mag = _magnitudes(nf) * float(case.get("magscale", 1.0))
+    ms = case.get("magscale", 1.0)
+    if ms == "mixed":  # every face on another decade
+        mag = _magnitudes(nf) * np.array(MAGSCALES)[np.arange(nf) % len(MAGSCALES)]
+    else:
+        mag = _magnitudes(nf) * float(ms)
+    assert np.all(mag > 0) and np.all(np.isfinite(mag))
     gname = G.grid_name(spec)
     vectors = list(_vectors(case, g))
     for m in _bc_masks(info, dim, case["bcset"]):
@@ -310,14 +330,15 @@ def _run_sel(case, out):
             has_inflow = bool(np.any(dir_diag[nz] == 1))
             has_neu_flux = bool(np.any(neu_face & nz))
             neg_int = bool(np.any(s[interior] < 0)) or not interior.any()
-            key = (gname, comps, m, tuple(s[bf].tolist())) if (has_inflow and has_neu_flux and neg_int) else None
+            key = (gname, comps, m, tuple(s[bf].tolist()), str(ms)) if (has_inflow and has_neu_flux and neg_int) else None
             nzero = int((~nz).sum())
             if bad is not None:
                 out.violate(bad[0], grid=gname, grid_spec=spec, components=comps, flux=q, dirichlet_faces=bf[is_dir],
                             neumann_faces=bf[~is_dir], **bad[1])
                 out.ev("VIOLATION", key)
             else:
-                out.ev(f"sel/{gname}/n{comps}/{bccls}/z{min(nzero, 2)}" + ("/in" if has_inflow else ""), key)
+                out.ev(f"sel/{gname}/n{comps}/{bccls}/z{min(nzero, 2)}" + ("/in" if has_inflow else "")
+                       + (f"/x{ms}" if ms != 1.0 else ""), key)
             if not out.samples and key is not None:
                 out.samples.append({"grid": gname, "flux": q.tolist(), "dirichlet_faces": bf[is_dir].tolist(),
                                     "neumann_faces": bf[~is_dir].tolist(), "components": comps})
@@ -360,7 +381,7 @@ def _run_step(case, out):
     for coefs in itertools.product(COEFS[case["coef"]], repeat=len(basis)):
         if not any(coefs):
             continue
-        q = sum(a * b for a, b in zip(coefs, basis))
+        q = sum(a * b for a, b in zip(coefs, basis)) * (2.0 ** case.get("mag_exp2", 0))
         if not np.any(q):
             continue
         outflow = np.maximum(cf * q[:, None], 0.0).sum(axis=0)
@@ -398,13 +419,14 @@ def _run_step(case, out):
                         bad = ("explicit upwind step under the CFL limit leaves the initial bounds",
                                {"initial": c0, "after": c1, "bounds": [lo, hi]})
                         break
-                key = (gname, comps, m, coefs, fac)
+                key = (gname, comps, m, coefs, fac, case.get("mag_exp2", 0))
                 if bad is not None:
                     out.violate(bad[0], grid=gname, grid_spec=spec, components=comps, flux=q, curl_coefficients=list(coefs),
                                 dirichlet_faces=bf[is_dir], dt=dt, dt_over_cfl=fac, **bad[1])
                     out.ev("VIOLATION", key)
                 else:
-                    out.ev(f"step/{dim}d-{spec['kind']}/n{comps}/cfl{fac}" + ("/zero-int" if zero_int else ""), key)
+                    out.ev(f"step/{dim}d-{spec['kind']}/n{comps}/cfl{fac}" + ("/zero-int" if zero_int else "")
+                           + (f"/2^{case['mag_exp2']}" if case.get("mag_exp2") else ""), key)
         if not out.samples:
             out.samples.append({"grid": gname, "flux": q.tolist(), "dt_cfl": dt_max, "components": comps})
 
